@@ -144,6 +144,10 @@ func init() {
 		if recv.Loc != nil && recv.Loc.Kind == LCell {
 			return fmt.Sprintf("sb:%d", recv.Loc.Cell.id)
 		}
+		if recv.Loc == nil && strings.HasPrefix(recv.T.S, "(+ top") {
+			// a builder allocated in this function (fresh reference)
+			return "sb:" + recv.T.S
+		}
 		return ""
 	}
 	sbWrite := func(x *Exec, st *State, recv Val, s Term) bool {
@@ -180,6 +184,13 @@ func init() {
 			cur = StrLit("")
 		}
 		return Val{T: cur, Typ: strT}, true
+	})
+	reg("(*strings.Builder).Grow", func(x *Exec, fr *Frame, st *State, cc *ssa.CallCommon, a []Val) (Val, bool) {
+		if sbKey(a[0]) == "" {
+			return Val{}, false
+		}
+		x.oblige(st, "SAFE", "builder-grow-nonneg("+x.posText(cc.Pos())+")", Ge(a[1].T, IntLit(0)), "strings.Builder.Grow: negative count")
+		return Val{}, true
 	})
 	reg("(*strings.Builder).Len", func(x *Exec, fr *Frame, st *State, cc *ssa.CallCommon, a []Val) (Val, bool) {
 		k := sbKey(a[0])
